@@ -117,11 +117,18 @@ def observe(text, probes, is_decimal):
         value = (decimal.Decimal(probe) / 4) if is_decimal else probe
         if is_decimal and probe % 2 == 0:
             value = str(value)  # DecimalRange.validate also takes text
-        try:
-            range_object.validate("x", value)
+        verdicts = []
+        for _ in range(2):  # a range is a pure predicate: asking twice in a row must give the same answer
+            try:
+                range_object.validate("x", value)
+                verdicts.append(True)
+            except errors.RangeValueError:
+                verdicts.append(False)
+        if verdicts[0] != verdicts[1]:
+            return {"status": "crash", "error": "validate(%r) answers %s first and %s when asked again" % (
+                value, "accepted" if verdicts[0] else "rejected", "accepted" if verdicts[1] else "rejected")}
+        if verdicts[0]:
             accepted.append(probe)
-        except errors.RangeValueError:
-            pass
     scale = 4 if is_decimal else 1
 
     def back(limit):
